@@ -46,9 +46,10 @@ var stores = []sk.Kind{sk.Bridge, sk.L1Info}
 // goodKinds: block contents the store must accept ("v2" is a CONSISTENT root announcement).
 func goodKinds(store sk.Kind, tier string) []string {
 	if store == sk.Bridge {
-		return []string{"bridge", "bridge2", "claim"}
+		return []string{"bridge", "bridge2", "claim", "empty"}
 	}
-	return []string{"info", "v2", "verify"}
+	// "empty": a block without events (the driver hands such blocks over too: range markers, buffered blocks)
+	return []string{"info", "v2", "verify", "empty"}
 }
 
 func depth(tier string) int {
